@@ -122,10 +122,42 @@ def make_hooks():
             if name == "upper_bound":
                 return [("ok", st, hi)]
         return None
-    return {"global": g, "getattr": ga}
+    def str_hook(eng, st, v):
+        # str(<float>): the uninterpreted string str_of_float(x) (pyvc/builtins.py) - what the writer emits for an infinite / NaN
+        # bound; the reader's float() of it is related to x only through the assumed axiom float(str(x)) == x (contracts/c11_reader.py)
+        if isinstance(v, VReal):
+            from pyvc.builtins import str_of_float
+            return [("ok", st, VStr(str_of_float(v)))]
+        return None
+    return {"global": g, "getattr": ga, "str": str_hook}
 
 
 HOOKS = make_hooks()
+
+
+def dict_same(r0, r1, qn="sk"):
+    """the dictionary with record r1 has the same keys and the same value objects as the one with record r0 (python bool / z3)"""
+    if r0.get("lazy") or r1.get("lazy"):
+        if r0.get("lazy") and r1.get("lazy"):
+            return z3.BoolVal(True)
+        rr = r1 if r0.get("lazy") else r0
+        k = qv(qn, rr["dom"].sort().domain())
+        return FA([k], z3.Not(z3.Select(rr["dom"], k)), patterns=[z3.Select(rr["dom"], k)])
+    if r0.get("pure") or r1.get("pure"):
+        return z3.BoolVal(False)
+    k = qv(qn, r0["dom"].sort().domain())
+    return z3.And(FA([k], z3.Select(r1["dom"], k) == z3.Select(r0["dom"], k), patterns=[z3.Select(r1["dom"], k)]),
+                  FA([k], z3.Implies(z3.Select(r0["dom"], k), z3.Select(r1["val"], k) == z3.Select(r0["val"], k)),
+                     patterns=[z3.Select(r1["val"], k)]))
+
+
+def _written_dict(E, st1, v, w, cond=None):
+    """an optional dictionary attribute v (notes, annotation) written as w: a NEW dictionary with the same keys and value objects
+    (what _fix_type returns for a dictionary, through _update_optional's contract); under `cond` for a conditional entry"""
+    if not (isinstance(w, VObj) and w.kind == "dict" and w.oid != v.oid):
+        return z3.BoolVal(False)
+    c = dict_same(E.s0.objs[v.oid], st1.objs[w.oid], "wk")
+    return c if cond is None else z3.Implies(cond, c)
 
 # ---------------------------------------------------------------- dict._fix_type (scalar cases)
 def _ft_same(E):
@@ -386,8 +418,10 @@ def _r2d_post(E):
         special = z3.Or(xr_isinf(x), z3.And(x.k == 0, x.v == nan))
         if isinstance(v, VReal):          # written as a number on this path: only allowed for an ordinary finite float
             cs.append(z3.And(z3.Not(special), xr_eq(v, x)))
-        elif isinstance(v, (VOpaque, VStr)):      # written as str(...) on this path: only for inf / -inf / nan
+        elif isinstance(v, VStr):         # written as str(...) on this path: only for inf / -inf / nan, and it is str(bound)
+            from pyvc.builtins import str_of_float
             cs.append(special)
+            cs.append(v.t == str_of_float(x))
         else:
             cs.append(z3.BoolVal(False))
     mets = _r2d_entry(E, "metabolites")
@@ -407,8 +441,15 @@ def _r2d_post(E):
             if not isinstance(v, VObj):
                 c = E.eng.eq(E.s1, w[2], v)
                 cs.append(z3.BoolVal(c) if isinstance(c, bool) else c)
+            else:
+                cs.append(_written_dict(E, E.s1, v, w[2], w[1]))
         else:
             cs.append(want)
+            if isinstance(v, VObj):
+                cs.append(_written_dict(E, E.s1, v, w))
+            else:
+                c = E.eng.eq(E.s1, w, v)
+                cs.append(z3.BoolVal(c) if isinstance(c, bool) else c)
     return z3.And(*cs)
 
 
@@ -460,8 +501,15 @@ def _simple_to_dict_post(param, required, tag):
                 if not isinstance(v, VObj):
                     c = E.eng.eq(st1, w[2], v)
                     cs.append(z3.BoolVal(c) if isinstance(c, bool) else c)
+                else:
+                    cs.append(_written_dict(E, st1, v, w[2], w[1]))
             else:
                 cs.append(want)
+                if isinstance(v, VObj):
+                    cs.append(_written_dict(E, st1, v, w))
+                else:
+                    c = E.eng.eq(st1, w, v)
+                    cs.append(z3.BoolVal(c) if isinstance(c, bool) else c)
         return z3.And(*cs)
     return post
 
